@@ -707,7 +707,7 @@ func (r *collection) addService(service any, lifetime Lifetime, opts ...AddOptio
 			interfaceType := reflect.TypeOf(iface).Elem()
 
 			// Validate that the service type implements the interface
-			if !descriptor.Type.Implements(interfaceType) && !reflect.PointerTo(descriptor.Type).Implements(interfaceType) {
+			if !descriptor.Type.Implements(interfaceType) {
 				r.rollbackTo(mark)
 				return &TypeMismatchError{
 					Expected: interfaceType,
